@@ -12,7 +12,93 @@ import (
 
 func init() { register("C16", runC16) }
 
+// c16marathon: more than 2^32 values pass through one container whose length stays
+// between 1 and 65: 32-bit positions or counters of a re-implemented backing store
+// wrap here. The model is two counters (values are consecutive numbers).
+func c16marathon(c *core.Ctx) {
+	total := uint64(1)<<32 + 1<<22
+	if p := c.Param["marathon_values"]; p != "" {
+		fmt.Sscan(p, &total)
+	}
+	var in, out uint64
+	rnd := uint64(c.Seed) | 1
+	next := func() int { // 1..64
+		rnd ^= rnd << 13
+		rnd ^= rnd >> 7
+		rnd ^= rnd << 17
+		return int(rnd&63) + 1
+	}
+	if c.Index == 0 {
+		var q lists.Queue[uint64]
+		q.Enqueue(in)
+		in++
+		for checks := uint64(0); in < total; checks++ {
+			burst := next()
+			for b := 0; b < burst; b++ {
+				q.Enqueue(in)
+				in++
+			}
+			// Len at every peak: a wrapped position shows only while the tail has wrapped
+			// and the head has not
+			if n := q.Len(); n != int(in-out) {
+				c.Violate("marathon:Len", fmt.Sprintf("after %d values had passed through one queue: Len()=%d with %d values inside", in, n, in-out), nil)
+				return
+			}
+			for b := 0; b < burst; b++ {
+				v, ok := q.Dequeue()
+				if !ok || v != out {
+					c.Violate("marathon:Dequeue:order", fmt.Sprintf("after %d values had passed through one queue (length never above 65): Dequeue returned (%d,%v), FIFO order gives %d", in, v, ok, out), nil)
+					return
+				}
+				out++
+			}
+			if checks&0xffff == 0 {
+				if v, ok := q.Peek(); q.Len() != int(in-out) || !ok || v != out {
+					c.Violate("marathon:Len/Peek", fmt.Sprintf("after %d values had passed through one queue: Len()=%d (model %d), Peek()=(%d,%v) want %d", in, q.Len(), in-out, v, ok, out), nil)
+					return
+				}
+			}
+		}
+		c.Count("marathon_values_through_one_queue", int64(in))
+	} else {
+		var st lists.Stack[uint32]
+		// the stack keeps a resident bottom value; bursts are pushed and popped above it
+		st.Push(0xdeadbeef)
+		for checks := uint64(0); in < total; checks++ {
+			burst := next()
+			base := uint32(in)
+			for b := 0; b < burst; b++ {
+				st.Push(base + uint32(b))
+				in++
+			}
+			if len(st) != burst+1 {
+				c.Violate("marathon:Len", fmt.Sprintf("after %d values had passed through one stack: len=%d with %d values inside", in, len(st), burst+1), nil)
+				return
+			}
+			for b := burst - 1; b >= 0; b-- {
+				v, ok := st.Pop()
+				if !ok || v != base+uint32(b) {
+					c.Violate("marathon:Pop:order", fmt.Sprintf("after %d values had passed through one stack (height never above 65): Pop returned (%d,%v), LIFO order gives %d", in, v, ok, base+uint32(b)), nil)
+					return
+				}
+			}
+			if checks&0xffff == 0 {
+				if v, ok := st.Peek(); len(st) != 1 || !ok || v != 0xdeadbeef {
+					c.Violate("marathon:Len/Peek", fmt.Sprintf("after %d values had passed through one stack: len=%d, Peek()=(%d,%v)", in, len(st), v, ok), nil)
+					return
+				}
+			}
+		}
+		c.Count("marathon_values_through_one_stack", int64(in))
+	}
+	c.NonTrivial(core.Mix(c.Seed, uint64(c.Index), 1616))
+}
+
 func runC16(c *core.Ctx) {
+	if c.Mode == "marathon" {
+		c16marathon(c)
+		return
+	}
 	r := c.R
 	var q lists.Queue[int]
 	var st lists.Stack[int]
@@ -224,38 +310,42 @@ func runC16(c *core.Ctx) {
 		fail("Pop:empty", "drained stack not empty")
 		return
 	}
-	// other element types: zero-size, large (> 256 bytes), pointer-carrying
+	// other element types: zero-size, large (> 256 bytes), strings, pointers - the full
+	// lock-step model, with fill and drain phases up to ~2000 values
 	if c.Index%10 == 4 {
 		type bigT [40]int64
-		var bs lists.Stack[bigT]
-		var bq lists.Queue[bigT]
-		var zs lists.Stack[struct{}]
-		var ss lists.Stack[string]
-		k := r.Range(1, 40)
-		if p, pv := core.Catch(func() {
-			for i := 0; i < k; i++ {
-				bs.Push(bigT{int64(i), 1: int64(-i)})
-				bq.Enqueue(bigT{int64(i)})
-				zs.Push(struct{}{})
-				ss.Push(fmt.Sprint(i))
-			}
-			for i := k - 1; i >= 0; i-- {
-				v, ok := bs.Pop()
-				w, ok2 := bq.Dequeue()
-				_, ok3 := zs.Pop()
-				sv, ok4 := ss.Pop()
-				if !ok || !ok2 || !ok3 || !ok4 || v[0] != int64(i) || v[1] != int64(-i) || w[0] != int64(k-1-i) || sv != fmt.Sprint(i) {
-					panic(fmt.Sprintf("wrong value at step %d: %v %v %q", i, v[:2], w[0], sv))
+		ok := true
+		switch (c.Index / 10) % 5 {
+		case 0:
+			ok = qsTyped(c, "[40]int64", r.Range(50, 3000), 60, func(i int) bigT { return bigT{int64(i), 1: int64(-i), 39: int64(i) * 7} })
+		case 1:
+			ok = qsTyped(c, "struct{}", r.Range(50, 3000), 60, func(i int) struct{} { return struct{}{} })
+		case 2:
+			ok = qsTyped(c, "string", r.Range(50, 3000), 60, func(i int) string { return fmt.Sprint("v", i) })
+		case 3:
+			ptrs := map[int]*int{}
+			ok = qsTyped(c, "*int", r.Range(50, 3000), 60, func(i int) *int {
+				if ptrs[i] == nil {
+					ptrs[i] = new(int)
 				}
-			}
-			if _, ok := bs.Pop(); ok {
-				panic("big-element stack not empty")
-			}
-		}); p {
-			fail("element-types", fmt.Sprintf("Stack/Queue over a 320-byte / zero-size / string element type: %v", pv))
+				return ptrs[i]
+			})
+		case 4:
+			ok = qsTyped(c, "uint8", r.Range(50, 3000), 60, func(i int) uint8 { return uint8(i%255 + 1) })
+		}
+		if !ok {
 			return
 		}
 		c.Count("other_element_types", 1)
+	}
+	// one object used for a very long time: far more than 2^16 (and 2^17) values pass
+	// through a queue and a stack whose lengths keep oscillating - positions, counters
+	// and ring indices of a re-implemented backing store wrap here and nowhere else
+	if c.Index%500 == 77 && (c.Tier != "thorough" || c.Index%10000 == 77) {
+		if !qsTyped(c, "int(long)", r.Range(700000, 1000000), 2500, func(i int) int { return i + 1 }) {
+			return
+		}
+		c.Count("long_histories_past_2^17_values", 1)
 	}
 	c.Count("drained_to_empty", int64(emptied))
 	c.Count("refilled_after_empty", int64(refilled))
@@ -269,4 +359,98 @@ func runC16(c *core.Ctx) {
 		}
 		c.Sample(map[string]any{"calls": len(hist), "history_prefix": h})
 	}
+}
+
+// qsTyped: lock-step Queue[T]/Stack[T] against slice models for nops calls, phases of
+// filling and draining that switch every ~flipDen calls; values are mk(1), mk(2), ...
+func qsTyped[T comparable](c *core.Ctx, tname string, nops, flipDen int, mk func(int) T) bool {
+	r := c.R
+	var q lists.Queue[T]
+	var st lists.Stack[T]
+	var qm, sm []int
+	var zero T
+	next := 0
+	fail := func(sig, msg string) bool {
+		c.Violate(sig+"["+tname+"]", fmt.Sprintf("%s [element type %s, after %d values, queue model length %d, stack model length %d]", msg, tname, next, len(qm), len(sm)), nil)
+		return false
+	}
+	fill := true
+	for i := 0; i < nops; i++ {
+		if r.Chance(1, flipDen) {
+			fill = !fill
+		}
+		wIn, wOut := 6, 3
+		if !fill {
+			wIn, wOut = 2, 7
+		}
+		onQ := r.Bool()
+		switch op := r.Pick(wIn, wOut, 1); {
+		case op == 0 && onQ:
+			next++
+			q.Enqueue(mk(next))
+			qm = append(qm, next)
+		case op == 0:
+			next++
+			st.Push(mk(next))
+			sm = append(sm, next)
+		case op == 1 && onQ:
+			v, ok := q.Dequeue()
+			if len(qm) == 0 {
+				if ok || v != zero {
+					return fail("Dequeue:empty", "Dequeue on an empty queue returned a value")
+				}
+			} else {
+				if !ok || v != mk(qm[0]) {
+					return fail("Dequeue:order", fmt.Sprintf("Dequeue returned (%v,%v), FIFO order gives value #%d", v, ok, qm[0]))
+				}
+				qm = qm[1:]
+			}
+		case op == 1:
+			v, ok := st.Pop()
+			if len(sm) == 0 {
+				if ok || v != zero {
+					return fail("Pop:empty", "Pop on an empty stack returned a value")
+				}
+			} else {
+				if !ok || v != mk(sm[len(sm)-1]) {
+					return fail("Pop:order", fmt.Sprintf("Pop returned (%v,%v), LIFO order gives value #%d", v, ok, sm[len(sm)-1]))
+				}
+				sm = sm[:len(sm)-1]
+			}
+		default:
+			if q.Len() != len(qm) || len(st) != len(sm) {
+				return fail("Len", fmt.Sprintf("Queue.Len()=%d (model %d), len(stack)=%d (model %d)", q.Len(), len(qm), len(st), len(sm)))
+			}
+			if v, ok := q.Peek(); ok != (len(qm) > 0) || ok && v != mk(qm[0]) {
+				return fail("Queue.Peek", fmt.Sprintf("Queue.Peek()=(%v,%v)", v, ok))
+			}
+			if v, ok := st.Peek(); ok != (len(sm) > 0) || ok && v != mk(sm[len(sm)-1]) {
+				return fail("Stack.Peek", fmt.Sprintf("Stack.Peek()=(%v,%v)", v, ok))
+			}
+		}
+		if len(qm) > 64 && cap(qm) > 4*len(qm) {
+			qm = append([]int(nil), qm...)
+		}
+	}
+	c.Count("typed_calls", int64(nops))
+	c.Max("max_values_through_one_object", int64(next))
+	for len(qm) > 0 {
+		if v, ok := q.Dequeue(); !ok || v != mk(qm[0]) {
+			return fail("Dequeue:order", fmt.Sprintf("final drain: Dequeue=(%v,%v) want value #%d", v, ok, qm[0]))
+		}
+		qm = qm[1:]
+	}
+	for len(sm) > 0 {
+		if v, ok := st.Pop(); !ok || v != mk(sm[len(sm)-1]) {
+			return fail("Pop:order", fmt.Sprintf("final drain: Pop=(%v,%v) want value #%d", v, ok, sm[len(sm)-1]))
+		}
+		sm = sm[:len(sm)-1]
+	}
+	if _, ok := q.Dequeue(); ok || q.Len() != 0 {
+		return fail("Dequeue:empty", "drained queue is not empty")
+	}
+	if _, ok := st.Pop(); ok || len(st) != 0 {
+		return fail("Pop:empty", "drained stack is not empty")
+	}
+	return true
 }
